@@ -70,6 +70,7 @@ type vWorld struct {
 	start   time.Time
 	evs     []vEv
 	oracle  []string
+	clauses map[string]bool
 	deny    map[string]bool
 	hook    string
 	dialErr bool
@@ -96,8 +97,25 @@ func (w *vWorld) logf(kind string, sid uint32, format string, a ...any) {
 	w.evs = append(w.evs, vEv{at: time.Since(w.start), text: fmt.Sprintf(format, a...), kind: kind, sid: sid})
 }
 
+// fail records a model-free property failure.  Every message starts with the clause it belongs to
+// ("isolation:", "close:", "census:", "lifecycle:", "fragment:" are C07's; "policy:", "override:",
+// "cache:" are C08's); a component reports only the clauses of its own property, so that a change
+// which breaks only the other property does not make this check alarm.
 func (w *vWorld) fail(format string, a ...any) {
-	w.oracle = append(w.oracle, fmt.Sprintf(format, a...))
+	msg := fmt.Sprintf(format, a...)
+	clause := msg
+	if i := strings.IndexByte(msg, ':'); i > 0 {
+		clause = msg[:i]
+	}
+	if w.clauses != nil && !w.clauses[clause] {
+		return
+	}
+	w.oracle = append(w.oracle, msg)
+}
+
+var clausesOf = map[string]map[string]bool{
+	"udpsession": {"isolation": true, "close": true, "census": true, "lifecycle": true, "fragment": true},
+	"udpacl":     {"policy": true, "override": true, "cache": true},
 }
 
 func (w *vWorld) denied(addr string) bool { return addr == "" || w.deny[addr] }
@@ -136,7 +154,7 @@ func (w *vWorld) SendMessage(buf []byte, msg *protocol.UDPMessage) error {
 			w.fail("isolation: upstream fragment tagged with session %d, the packet belongs to session %d", msg.SessionID, w.bigSid)
 		}
 		if w.bigOff+len(data) > len(w.bigData) || string(w.bigData[w.bigOff:w.bigOff+len(data)]) != string(data) {
-			w.fail("upstream fragment %d/%d does not continue the packet", msg.FragID, msg.FragCount)
+			w.fail("fragment: upstream fragment %d/%d does not continue the packet", msg.FragID, msg.FragCount)
 		}
 		w.bigOff += len(data)
 		w.mu.Unlock()
@@ -338,7 +356,7 @@ func (c *vConn) Close() error {
 	if c.closes == 1 {
 		close(c.closedCh)
 	} else {
-		c.w.fail("socket %d (session %d) closed %d times", c.k, c.owner, c.closes)
+		c.w.fail("close: socket %d (session %d) closed %d times", c.k, c.owner, c.closes)
 	}
 	return nil
 }
@@ -378,6 +396,7 @@ func (h *vHist) startManager(timeout time.Duration, deny string) {
 			w.deny[aIn(a)] = true
 		}
 	}
+	w.clauses = clausesOf[h.comp]
 	h.w = w
 	h.timeout = timeout
 	h.exp = map[uint32]*sessExp{}
@@ -400,13 +419,17 @@ func (h *vHist) drain() []vEv {
 	return e
 }
 
+// evText renders the events of a lifecycle op. CheckUDP calls are left out: whether and when the
+// policy is consulted is C08's business (stream udpacl compares it exactly).
 func evText(evs []vEv) string {
-	if len(evs) == 0 {
-		return "-"
+	var ss []string
+	for _, e := range evs {
+		if e.kind != "check" {
+			ss = append(ss, e.text)
+		}
 	}
-	ss := make([]string, len(evs))
-	for i, e := range evs {
-		ss[i] = e.text
+	if len(ss) == 0 {
+		return "-"
 	}
 	return strings.Join(ss, " ")
 }
@@ -430,7 +453,7 @@ func (h *vHist) summary() string {
 	}
 	var rows []row
 	for id, e := range h.sm.m {
-		rows = append(rows, row{id, fmt.Sprintf("%d@%d#%d", id, e.Last.Get().Sub(h.w.start).Milliseconds(), len(e.aclCache))})
+		rows = append(rows, row{id, fmt.Sprintf("%d@%d", id, e.Last.Get().Sub(h.w.start).Milliseconds())})
 	}
 	h.sm.mutex.RUnlock()
 	sort.Slice(rows, func(i, j int) bool { return rows[i].id < rows[j].id })
@@ -573,7 +596,7 @@ func (h *vHist) dropBySock(k int) {
 func (h *vHist) checkTable() {
 	ids := h.tableSids()
 	if n := h.sm.Count(); n != len(ids) {
-		h.w.fail("Count() = %d but the table holds %d sessions", n, len(ids))
+		h.w.fail("census: Count() = %d but the table holds %d sessions", n, len(ids))
 	}
 	have := map[uint32]bool{}
 	for _, id := range ids {
@@ -749,10 +772,17 @@ func (h *vHist) do(op string) (res vh.Result) {
 		t0 := h.now()
 		tk := (time.Duration(int64(t0+h.timeout)/int64(vInterval)) + 1) * vInterval // first sweep that finds Last = t0 idle
 		before := cacheKeys(h.lookupEntry(m.SessionID))
+		// The dial is held only when that is safe on ANY tree: a goroutine waiting for connLock is not
+		// "durably blocked" for synctest, so virtual time must not have to pass a sweep while the dial is
+		// held other than the one this goroutine wakes up at.  Hence: the session is new (its Last is t0
+		// whatever the code does with later stamps) and no sweep tick lies strictly between t0 and tk.
+		// Otherwise the op is a plain datagram followed by the same passage of time.
 		gate := make(chan struct{})
-		h.w.mu.Lock()
-		h.w.dialGate = gate
-		h.w.mu.Unlock()
+		if h.lookupEntry(m.SessionID) == nil && tk-t0 <= vInterval {
+			h.w.mu.Lock()
+			h.w.dialGate = gate
+			h.w.mu.Unlock()
+		}
 		h.feedMsg(m, nil)
 		entry := h.lookupEntry(m.SessionID)
 		time.Sleep(tk - t0) // wakes at the same instant as the sweeper's ticker
@@ -883,7 +913,7 @@ func (h *vHist) do(op string) (res vh.Result) {
 			if f[4] == "big" && len(data) > 5 {
 				h.w.mu.Lock()
 				if h.w.bigOff != len(h.w.bigData) {
-					h.w.fail("upstream packet of %d bytes was refused as too large but only %d bytes were re-sent as fragments", len(h.w.bigData), h.w.bigOff)
+					h.w.fail("fragment: upstream packet of %d bytes was refused as too large but only %d bytes were re-sent as fragments", len(h.w.bigData), h.w.bigOff)
 				}
 				h.w.mu.Unlock()
 			}
@@ -1189,7 +1219,10 @@ func (h *vHist) doAcl(op string, seq *int) (res vh.Result) {
 			h.e0 = h.lookupEntry(aclSid)
 			if h.e0 == nil {
 				// same state as the deleted entry: constructed by the real constructor, closed
-				h.e0 = newUDPSessionEntry(aclSid, h.w, nil, func(error) {})
+				// (its dial function refuses: whether a closed entry may dial again is C07's clause, not C08's)
+				h.e0 = newUDPSessionEntry(aclSid, h.w,
+					func(string, []byte) (UDPConn, string, error) { return nil, "", errors.New("session is gone") },
+					func(error) {})
 				h.e0.closed = true
 			}
 		} else if h.lookupEntry(aclSid) == h.e0 {
@@ -1464,6 +1497,10 @@ func genAcl(r *vh.RNG, n int, emit func(op string, tags ...string)) {
 			}
 			emit("dg "+a+" "+hook(first)+" "+de, tag)
 			total++
+			if !first && r.Chance(1, 6) { // the same destination again, back to back
+				emit("dg "+a+" K 0", "acl:repeat")
+				total++
+			}
 		}
 		switch {
 		case kind < 4: // overflow the cache, revisit evicted keys, alternate allowed / denied
@@ -1499,6 +1536,24 @@ func genAcl(r *vh.RNG, n int, emit func(op string, tags ...string)) {
 					total++
 				}
 			}
+		case kind == 4: // hook rewriting combined with the policy: original / rewritten address each allowed or denied
+			orig, rew := pool[r.Intn(12)], pool[12+r.Intn(12)]
+			if r.Chance(1, 3) {
+				rew = "h" + strconv.Itoa(r.Intn(2)) + ":9"
+			}
+			emit("dg "+orig+" R:"+rew+" 0", "acl:hookpolicy")
+			total++
+			for i := 0; i < r.Range(2, 10); i++ {
+				switch r.Intn(4) {
+				case 0:
+					emit("reply "+[]string{rew, orig, pool[r.Intn(24)]}[r.Intn(3)], "acl:reply")
+					total++
+				case 1:
+					dg(orig, false, "acl:hookpolicy")
+				default:
+					dg(pool[r.Intn(24)], false, "acl:hookpolicy")
+				}
+			}
 		case kind < 7: // few destinations, many repeats
 			k := r.Range(1, 6)
 			for i := 0; i < 40; i++ {
@@ -1529,8 +1584,10 @@ func genSession(r *vh.RNG, n int, emit func(op string, tags ...string)) {
 	total := 0
 	seq := 0
 	for total < n {
-		timeoutMs := []int{1500, 2000, 2250, 3000, 1000}[r.Intn(5)]
-		emit(fmt.Sprintf("reset %d %s", timeoutMs, denyList(r, append(pool, "h0:9"), 1, 4)), "s:reset")
+		timeoutMs := []int{1500, 2000, 2250, 3000, 1000, 500, 500, 750}[r.Intn(8)]
+		// allow-all policy, no address rewriting: these histories are about the lifecycle only (policy and
+		// override variety live in the udpacl stream of C08)
+		emit(fmt.Sprintf("reset %d .", timeoutMs), "s:reset")
 		total++
 		nops := r.Range(5, 40)
 		dials := 0
@@ -1545,13 +1602,8 @@ func genSession(r *vh.RNG, n int, emit func(op string, tags ...string)) {
 		}
 		env := func() string {
 			hook := "K"
-			switch r.Intn(14) {
-			case 0:
+			if r.Chance(1, 14) {
 				hook = "E"
-			case 1, 2:
-				hook = "R:h" + strconv.Itoa(r.Intn(2)) + ":9"
-			case 3:
-				hook = "R:" + pool[r.Intn(len(pool))]
 			}
 			de, wok := "0", "1"
 			if r.Chance(1, 16) {
@@ -1628,8 +1680,8 @@ func genSession(r *vh.RNG, n int, emit func(op string, tags ...string)) {
 				}
 				dials++
 				total++
-			case c < 3: // first dial still in flight when the sweep finds the entry idle
-				m := &protocol.UDPMessage{SessionID: sid, PacketID: uint16(r.Intn(4)), FragCount: 1, Addr: pool[r.Intn(len(pool))], Data: payload(r.Range(2, 12))}
+			case c < 5: // first dial still in flight when the sweep finds the entry idle
+				m := &protocol.UDPMessage{SessionID: sids[r.Intn(len(sids))], PacketID: uint16(r.Intn(4)), FragCount: 1, Addr: pool[r.Intn(len(pool))], Data: payload(r.Range(2, 12))}
 				emit("slowdial "+msgLine(m)+" "+env(), "s:slowdial")
 				if dials < 3 || r.Chance(1, 3) {
 					dials++
